@@ -575,6 +575,12 @@ bool QXmppStunMessage::decode(const QByteArray &buffer, const QByteArray &key, Q
         stream >> a_length;
         const int pad_length = 4 * ((a_length + 3) / 4) - a_length;
 
+        // the attribute value must lie within the message body
+        if (done + 4 + a_length > length) {
+            *errors << u"Truncated STUN attribute %1"_s.arg(QString::number(a_type));
+            return false;
+        }
+
         // only FINGERPRINT is allowed after MESSAGE-INTEGRITY
         if (after_integrity && a_type != Fingerprint) {
             *errors << u"Skipping attribute %1 after MESSAGE-INTEGRITY"_s.arg(QString::number(a_type));
